@@ -14,7 +14,7 @@
 From HV Require Import Proto.RaftNet Proto.PRaftLocal Proto.PRaftElection Proto.PRaftRefine Proto.PRaftLeader
   Proto.PRaftWf Proto.PRaftLog Proto.PRaftLogRefine Proto.PRaftSms Proto.PRaftLogTerms Proto.PRaftExamples
   Proto.PRaftLC Proto.PRaftLC2 Proto.PRaftLC3 Proto.PRaftLC4 Proto.PRaftLC5.
-From HV Require Proto.PaxosModel Proto.PPaxos Proto.PaxosCheck Proto.PPaxosRecommit Proto.PPaxosAcceptor.
+From HV Require Proto.PaxosModel Proto.PPaxos Proto.PaxosCheck Proto.PPaxosRecommit Proto.PPaxosAcceptor Proto.PPaxosProposer.
 
 Definition C40_raft_sms (n : N) : Prop := C40_raft_sms_stmt n.
 
@@ -261,3 +261,26 @@ Print Assumptions C40_paxos_acceptor_refines.
 
 Example C40_paxos_acceptor_nonvacuous : PPaxosAcceptor.R PaxosModel.p_init 0 PaxosCheck.acc_init.
 Proof. apply PPaxosAcceptor.R_init. Qed.
+
+(* The proposer's sequencing WITH THE PROPOSED REPAIR (fixes/C40_paxos_reconcile_p1bs_once.diff: the p1b
+   logs are reconciled only in the tick where leadership is gained; model PaxosCheck.seq_fixed_run, which
+   agreed with the patched proposer node in a private worktree on the generated cases) refines the
+   abstract system: from a state holding a quorum of p1b messages for the leader's ballot and no p2a of
+   that ballot yet, every p2a the leader emits over any number of ticks and payload batches is
+   produced by abstract P2a steps (fresh (ballot, slot), value by the choice rule) -- so with
+   C40_paxos_acceptor_refines the chosen-value safety of the abstract system carries over.  The
+   shipped rule does not have this property (C40_paxos_slot_reuse_refuted).  Preconditions that the
+   theorem does not discharge: one reconciliation per ballot (no p2a of the ballot before), and the
+   logs are those of the p1b quorum (p1b quorum collection itself is not modelled). *)
+Theorem C40_paxos_proposer_refines_if_reconciled_once : forall n f bal alogs ticks p,
+  PPaxosProposer.lwfp (map snd alogs) -> PaxosModel.quorum n (map fst alogs) ->
+  (forall a l, In (a, l) alogs -> In (a, PPaxosAcceptor.enc bal, PPaxosProposer.enc_plog l) (PaxosModel.m1b p)) ->
+  (forall s w, ~ In (PPaxosAcceptor.enc bal, s, w) (PaxosModel.m2a p)) ->
+  exists p', PaxosModel.psteps n p p' /\
+    (forall s v, In (s, v) (concat (PaxosCheck.seq_fixed_run f bal (map snd alogs) true 0 ticks)) ->
+                 In (PPaxosAcceptor.enc bal, s, PPaxosAcceptor.encv v) (PaxosModel.m2a p')) /\
+    (forall x, In x (PaxosModel.m2a p) -> In x (PaxosModel.m2a p')) /\
+    PaxosModel.maxBal p' = PaxosModel.maxBal p /\ PaxosModel.votes p' = PaxosModel.votes p /\
+    PaxosModel.m1a p' = PaxosModel.m1a p /\ PaxosModel.m1b p' = PaxosModel.m1b p.
+Proof. exact PPaxosProposer.proposer_fixed_refines. Qed.
+Print Assumptions C40_paxos_proposer_refines_if_reconciled_once.
